@@ -371,12 +371,16 @@ _WARM = [False]
 
 
 def _tree() -> Tree:
+    """The harness tree of the current shard (created on first use, removed by ``_close_tree`` when the shard ends)."""
     if _TREE[0] is None:
         _TREE[0] = Tree()
-        import atexit
-
-        atexit.register(_TREE[0].close)
     return _TREE[0]
+
+
+def _close_tree() -> None:
+    if _TREE[0] is not None:
+        _TREE[0].close()
+        _TREE[0] = None
 
 
 def _clear_caches() -> None:
@@ -579,6 +583,13 @@ def _stored(case, info):
 
 def run_shard(shard, tier, st):
     cs = _cases(tier)[shard[0]:shard[1]]
+    try:
+        _run_cases(cs, shard, st)
+    finally:
+        _close_tree()
+
+
+def _run_cases(cs, shard, st):
     for i, case in enumerate(cs):
         viol, outcome, info = run_case(case)
         st.states += 1
@@ -600,5 +611,8 @@ def run_shard(shard, tier, st):
 def replay(case):
     c = {"slots": [tuple(x) for x in case["slots"]], "kind": case["kind"], "otype": case["otype"], "inline": case.get("inline", False),
          "fresh_out": case.get("fresh_out", False), "no_export": case.get("no_export", False)}
-    viol, _, _ = run_case(c)
+    try:
+        viol, _, _ = run_case(c)
+    finally:
+        _close_tree()
     return [{"signature": sig, "expected": repr(e_), "observed": repr(o_)} for sig, e_, o_, what in viol]
